@@ -133,9 +133,62 @@ def directed_registry_cases(rng, n):
     NODE_REGISTRY.clear()
 
 
+def takeover_cases(rng, n):
+    """ID_DIGEST_SIZE=1: a node A is serialized and dropped; a DIFFERENT node B whose digest collides takes over the freed
+    id; A's payload is read back while B is alive.  Whatever the library answers, B (live, never detached) must still be
+    returned under its id, and ids of simultaneously registered nodes must be pairwise different."""
+    import gc
+    import pyoak.config as pconfig
+    from pyoak.node import NODE_REGISTRY, ASTNode
+    import zoo
+    old = pconfig.ID_DIGEST_SIZE
+    pconfig.ID_DIGEST_SIZE = 1
+    try:
+        for _ in range(n):
+            gc.collect()
+            NODE_REGISTRY.clear()
+            va = rng.randrange(10 ** 6)
+            deep = rng.random() < 0.5
+            a = zoo.Un(zoo.Leaf(v=va)) if deep else zoo.Leaf(v=va)
+            aid = a.id
+            d = a.as_dict()
+            del a
+            gc.collect()
+            NODE_REGISTRY.clear()
+            b = None
+            for vb in range(va + 1, va + 4000):
+                cand = zoo.Leaf(v=vb, s="other")
+                if cand.id == aid:
+                    b = cand
+                    break
+                del cand
+            if b is None:
+                continue
+            gc.collect()
+            back = (zoo.Un if deep else zoo.Leaf).as_obj(d)
+            fail = None
+            if ASTNode.get_any(b.id) is not b:
+                fail = "a live, never detached node is no longer returned under its id after as_obj of an unrelated payload carrying the same id"
+            else:
+                live = [o for o in (b, back) + ((back.arg,) if deep and back is not b and hasattr(back, "arg") else ())]
+                reg = [o for o in live if NODE_REGISTRY.get(o.id) is o]
+                ids = [o.id for o in {id(o): o for o in reg}.values()]
+                if len(set(ids)) != len(ids):
+                    fail = "two simultaneously registered nodes share an id"
+            yield Case("directed:takeover", None, None, True,
+                       f"ID_DIGEST_SIZE=1: A={'Un(Leaf' if deep else 'Leaf'}(v={va})) serialized and dropped; B=Leaf(v={vb}, s='other') "
+                       f"takes id {aid}; as_obj(A's payload) while B is alive", oracle_fail=fail, sig="registry|directed|takeover")
+            del b, back, d
+    finally:
+        pconfig.ID_DIGEST_SIZE = old
+        gc.collect()
+        NODE_REGISTRY.clear()
+
+
 def cases(rng: random.Random, tier: str):
     yield from f19_corpus()
     yield from directed_registry_cases(rng, 10 if tier == "quick" else 200)
+    yield from takeover_cases(rng, 6 if tier == "quick" else 100)
     n = 150 if tier == "quick" else 4000
     for _ in range(n):
         size = rng.choice([8, 8, 8, 2, 2, 1])
